@@ -610,6 +610,16 @@ func (m *machine) userCleans() {
 			os.MkdirAll(filepath.Join(dir, "subdir"), 0777)
 			os.WriteFile(filepath.Join(dir, "subdir", "readme"), []byte("keep"), 0666)
 		}
+		// sub-directories named like data files, holding foreign files
+		if t.Bool(1, 4) {
+			for _, sub := range []string{"backup.json/notes.txt", "old.v1.count/inner/readme", "local.archive.json/list"} {
+				if t.Bool(1, 2) {
+					os.MkdirAll(filepath.Dir(filepath.Join(dir, sub)), 0777)
+					os.WriteFile(filepath.Join(dir, sub), []byte("keep "+sub), 0666)
+					m.s.Probe("data-named-directory")
+				}
+			}
+		}
 	}
 	if t.Bool(1, 4) {
 		os.WriteFile(filepath.Join(m.tele, "stray.json"), []byte("keep"), 0666)
@@ -654,6 +664,13 @@ func (m *machine) userCleans() {
 		}
 	}
 	m.s.Probe("clean")
+	// the data-named directories are taken away again: what the uploader makes of
+	// them is not part of any property here
+	for _, dir := range dirs {
+		for _, sub := range []string{"backup.json", "old.v1.count", "local.archive.json"} {
+			os.RemoveAll(filepath.Join(dir, sub))
+		}
+	}
 }
 
 // ---------------------------------------------------------------- per-round oracle
